@@ -102,6 +102,14 @@ def replay_and_validate(ctx, pid, scheds, label):
     errs = [t for t in traces if "error" in t]
     if errs:
         raise Machinery("driver failed on %d schedules, first: %s" % (len(errs), errs[0]["error"]))
+    skipped = [i for i, t in enumerate(traces) if "unpredicted" in t]
+    if skipped:
+        ctx.note("%d schedules not judged: the library generated an id or progress token the driver could not predict and an arrival named the caller before its request was written" % len(skipped))
+        ctx.cov["unpredicted_ids"] = ctx.cov.get("unpredicted_ids", 0) + len(skipped)
+        keep = [i for i in range(len(traces)) if i not in set(skipped)]
+        traces = [traces[i] for i in keep]
+        scheds = [scheds[i] for i in keep]
+        seeds = [seeds[i] for i in keep]
     res = validate.two_stage("RequestWaitTrace", traces, trace_constants(), work=os.path.join(ctx.work, "val_" + label))
     ctx.cov["states"] += res["states"]
     ctx.cov["transitions"] += res["transitions"]
@@ -121,6 +129,10 @@ def replay_and_validate(ctx, pid, scheds, label):
                 continue
             nfail += 1
             sig = signature(t, cl)
+            if v["stage"] == 2 and cl == "NoLostResponse":
+                # the implementation model (which contains the shared-stream discard) does not
+                # explain this run: not the history the known finding describes
+                sig += " history-outside-implementation-model"
             ctx.report(sig, "stage %d, schedule %s" % (v["stage"], json.dumps(scheds[i])[:300]),
                        {"kind": "request_wait", "schedule": scheds[i], "seed": seeds[i][1], "trace": t, "clause": cl})
     ctx.cov["distinct_nontrivial"] += len(keys)
@@ -234,6 +246,10 @@ def check_c18(ctx):
     for k in (2, 3, 4):
         rs = random_scheds(ctx, n // 3, ncallers=k, max_arr=3 * k, cancel=False, progress=False)
         replay_and_validate(ctx, "C18", rs, "rand%d" % k)
+        # callers that differ in what they were given (a cancellation token that is never triggered,
+        # a progress callback) must wait alike
+        rs = random_scheds(ctx, n // 6, ncallers=k, max_arr=3 * k, cancel="idle", progress=True)
+        replay_and_validate(ctx, "C18", rs, "mixed%d" % k)
 
 
 def stdio_carried(ctx, quick):
